@@ -180,7 +180,18 @@ func (q *Queue[T]) pop(i int) T {
 		q.data[i], q.data[n] = q.data[n], out
 		q.move(q.data[i], i) // N.B. we do not report a move of out.
 		q.data = q.data[:n]
-		q.pushDown(i)
+		if i < n && q.pushDown(i) == i {
+			// The element moved into position i came from the end of the heap,
+			// which need not be below i: it may also belong above i.
+			for i > 0 {
+				par := (i - 1) / 2
+				if q.cmp(q.data[i], q.data[par]) >= 0 {
+					break
+				}
+				q.swap(i, par)
+				i = par
+			}
+		}
 	}
 	return out
 }
